@@ -433,7 +433,7 @@ class FSCBoundedPolicyIteration(Learns):
     ):
         self.controller_state_count = controller_state_count
         self.iterations = iterations
-        self.seed = seed or np.random.randint(2**30)
+        self.seed = seed if seed is not None else np.random.randint(2**30)
         self.convergence_diff = convergence_diff
         self.improve_node_fn = improve_node_fn
 
